@@ -4,6 +4,7 @@ import Parmcb.Model.DePina
 import Parmcb.Model.Signed
 import Parmcb.Model.Spanner
 import Parmcb.Model.Lex
+import Parmcb.Model.Iso
 import Parmcb.Driver.Proto
 /-! correspondence handlers for the graph algorithms (C16, C13, C01/C02 …) -/
 namespace Parmcb.Driver
@@ -95,9 +96,9 @@ def parseCycles (rest : List (List String)) : Option (List (List Nat)) :=
 /-- trace validation of one exact run in ForestIndex coordinates: every phase must satisfy the executable
 part of `PhaseOK` against the model's support vector; per-phase optimum from `minOddWeight` (and from the
 definitional `minOddBrute` when the graph is small enough).  Returns total weight and branch statistics. -/
-def validateRun (id : String) (gI : Graph) (v : Variant) (dim : Nat) (cycI : List (List Nat)) :
-    Except String (Int × Nat × Nat × Bool) := do
-  let sups := phaseSupports v 0 (unitSupports dim) cycI
+def validateRun (id : String) (gI : Graph) (v : Variant) (dim : Nat) (cycI : List (List Nat))
+    (sup0 : List (List Nat) := unitSupports dim) : Except String (Int × Nat × Nat × Bool) := do
+  let sups := phaseSupports v 0 sup0 cycI
   let brute := decide (gI.m ≤ 11)
   let mut total : Int := 0
   let mut k := 0
@@ -135,7 +136,13 @@ def handleExact (c : Case) : String := Id.run do
       if cycles.length != dim then return s!"viol {c.id} count emitted={cycles.length} dim={dim}"
       let cycI := cycles.map (fun cyc => setOf (cyc.map (fun e => index.getD e 0)))
       if (cycles.zip cycI).any (fun (a, b) => a.length != b.length) then return s!"viol {c.id} repeated-edge-in-cycle"
-      match validateRun c.id gI v dim cycI with
+      -- TBB variants fill the support vector by concurrent push_backs: the observed order is the start state
+      let sup0 := match findNats "init" rest with
+        | some ord => ord.map fun i => [i]
+        | none => unitSupports dim
+      if sup0.length != dim || !((List.range dim).all fun i => sup0.contains [i]) then
+        return s!"viol {c.id} support-initialisation-is-not-a-permutation-of-the-unit-vectors"
+      match validateRun c.id gI v dim cycI sup0 with
       | .error e => return e
       | .ok (total, bA, bH, brute) =>
         if total != ret then return s!"viol {c.id} ret returned={ret} emitted-weight={total}"
@@ -208,7 +215,12 @@ def handleApprox (c : Case) : String := Id.run do
       let cycI := exact.map (fun cyc => setOf (cyc.map (fun e => fi.index.getD (pos e) 0)))
       if (exact.zip cycI).any (fun (a, b) => a.length != b.length) then return s!"viol {c.id} repeated-edge-in-cycle"
       let mut total : Int := 0
-      match validateRun c.id gI v fi.dim cycI with
+      let sup0 := match findNats "init" rest with
+        | some ord => ord.map fun i => [i]
+        | none => unitSupports fi.dim
+      if sup0.length != fi.dim || !((List.range fi.dim).all fun i => sup0.contains [i]) then
+        return s!"viol {c.id} support-initialisation-is-not-a-permutation-of-the-unit-vectors"
+      match validateRun c.id gI v fi.dim cycI sup0 with
       | .error e => return e
       | .ok (t, _, _, _) => total := t
       -- one cycle per dropped edge (any order: the TBB variant appends concurrently)
@@ -273,8 +285,9 @@ def handleCands (c : Case) : String := Id.run do
     let (trees, cands) :=
       if which == "horton" then hortonCands g
       else if which == "fvs" then fvsCands g ((findNats "fvs" rest).getD [])
+      else if which == "iso" then isoCands g
       else ([], [])
-    if which == "horton" || which == "fvs" then
+    if which == "horton" || which == "fvs" || which == "iso" then
       if trees.map (·.source) != tsrc then return s!"diff {c.id} tree-sources"
       if showCands cands != impl then
         return s!"diff {c.id} candidates model={showCands cands} impl={impl}"
